@@ -355,7 +355,7 @@ fn enum_tostr(shard: usize, nshards: usize, tier: Tier, emit: &mut dyn FnMut(&[u
                     }
                 }
                 // pseudo-random arguments (a pure function of the index)
-                let count = if tier == Tier::Quick { 20_000u64 } else { 2_000_000 };
+                let count = if tier == Tier::Quick { 200_000u64 } else { 10_000_000 };
                 let mut s = 0x1234_5678u64 ^ hi as u64;
                 for _ in 0..count {
                     let r = verif_model::choice::splitmix(&mut s);
